@@ -257,10 +257,22 @@ func (r *report) replayAll(tmp string) {
 			}
 		}
 		if len(cases) > 0 {
-			outs, raw := runReplayBinary(bin, tmp, cases, 8<<20, 10*time.Minute)
+			outs, raw := runReplayBinary(bin, tmp, cases, 8<<20, 150*time.Second)
 			got := map[string]*Outcome{}
 			for i := range outs {
 				got[outs[i].ID] = &outs[i]
+			}
+			// a native run that produced no outcome (e.g. a third-party background goroutine wedged under the
+			// frozen clock) is repeated on its own before it counts as a disagreement
+			for _, c := range cases {
+				for try := 0; try < 2 && got[c.ID] == nil; try++ {
+					o1, r1 := runReplayBinary(bin, tmp, []Case{c}, 8<<20, 90*time.Second)
+					if len(o1) > 0 {
+						got[c.ID] = &o1[0]
+					} else {
+						raw = r1
+					}
+				}
 			}
 			for _, c := range cases {
 				rf := refs[c.ID]
